@@ -34,6 +34,8 @@ type FuncSpec struct {
 	Props    []string
 	Requires []*Clause
 	Ensures  []*Clause
+	Marks    []*Clause // typestate marks: assumed after a call, never checked against the body (they define ghost facts)
+	GhostMod []string  // ghost regions modified in addition to the inferred effects
 	Exits    []*Clause // assertions at every return point over the function's locals (not visible to callers)
 	Loops    map[int]*LoopSpec
 	Trusted  string // non-empty: body not checked
@@ -227,6 +229,27 @@ func (sp *Specs) parseFile(f *ast.File, fset *token.FileSet, pkgPath string) {
 				continue
 			}
 			cur.Ensures = append(cur.Ensures, parseClause(rest, l.file, l.line, autoLabel("post")))
+		case "assumepre":
+			// assumepre <callee>.<label> "reason": this caller does not establish the callee's precondition; it is
+			// assumed here and listed as an assumption instead of being an obligation
+			if cur != nil {
+				fs := strings.SplitN(rest, " ", 2)
+				reason := ""
+				if len(fs) == 2 {
+					reason = strings.Trim(strings.TrimSpace(fs[1]), "\"")
+				}
+				cur.Options["assumepre:"+fs[0]] = reason
+			}
+		case "marks":
+			if cur == nil {
+				sp.errf(l.file, l.line, "marks outside func")
+				continue
+			}
+			cur.Marks = append(cur.Marks, parseClause(rest, l.file, l.line, autoLabel("mark")))
+		case "ghostmod":
+			if cur != nil {
+				cur.GhostMod = append(cur.GhostMod, strings.Fields(strings.ReplaceAll(rest, ",", " "))...)
+			}
 		case "exit":
 			if cur == nil {
 				sp.errf(l.file, l.line, "exit outside func")
